@@ -55,7 +55,8 @@ def cases(shard, tier):
                         yield {'header': {'seq': seq, 'idlen': idlen, 'ident': ident, 'nlf': nlf, 'objects': True}}
         # header id and the defining origin's FILE-ID made to differ after the origin was added: the file must not be
         # written with the two disagreeing (refusing is fine)
-        for late in ('header-id-edited', 'origin-file-id-edited', 'both-edited-alike'):
+        for late in ('header-id-edited', 'origin-file-id-edited', 'both-edited-alike', 'both-edited-alike-74-chars',
+                     'sequence-number-edited', 'sequence-number-edited-11-digits'):
             yield {'header': {'seq': 1, 'idlen': 8, 'ident': '0', 'nlf': 1, 'late': late}}
         # identifier contents: digits only, blanks at either end, lower case, punctuation (must stay left-justified)
         for idtext in ('20240917', '7', '001', ' LEADING-BLANK', 'TRAILING-BLANK ', 'mixed Case 12', '-', '1e5', '+42'):
@@ -93,10 +94,14 @@ def run_case(case):
         sp = header_spec(hd)
         valid = 1 <= hd['seq'] and hd['seq'] + hd['nlf'] - 1 <= 9999999999 and hd['idlen'] <= 65 and len(hd['ident']) == 1
         if hd.get('late'):
-            if hd['late'] in ('header-id-edited', 'both-edited-alike'):
-                sp['ops'].append({'op': 'fhid', 'lf': 'L0', 'value': 'EDITED-ID'})
-            if hd['late'] in ('origin-file-id-edited', 'both-edited-alike'):
-                sp['ops'].append({'op': 'set', 'h': 'O0', 'attr': 'file_id', 'part': 'value', 'value': 'EDITED-ID'})
+            new_id = 'EDITED-ID' if '74' not in hd['late'] else 'X' * 74
+            if hd['late'].startswith(('header-id-edited', 'both-edited-alike')):
+                sp['ops'].append({'op': 'fhid', 'lf': 'L0', 'value': new_id})
+            if hd['late'].startswith(('origin-file-id-edited', 'both-edited-alike')):
+                sp['ops'].append({'op': 'set', 'h': 'O0', 'attr': 'file_id', 'part': 'value', 'value': new_id})
+            if hd['late'].startswith('sequence-number-edited'):
+                sp['ops'].append({'op': 'fhid', 'lf': 'L0', 'attr': 'sequence_number',
+                                  'value': 77 if '11' not in hd['late'] else 12345678901})
             res = S.run_spec(sp)
             raised = res['failed_at'] is not None or res['write'] != 'ok'
             if not raised:
@@ -106,6 +111,11 @@ def run_case(case):
                     fid = R.attr_values(lf.objects('ORIGIN')[0], 'FILE-ID')
                     if [str(x).rstrip(' ') for x in hid] != [str(x).rstrip(' ') for x in fid]:
                         viol.append(("C09:origin_file_id:after-late-edit", f"file written with header id {hid!r} and FILE-ID {fid!r} | {hd}"))
+                    seq = R.attr_values(lf.records[0][2].objects[0], 'SEQUENCE-NUMBER')
+                    if len(hid) != 1 or len(str(hid[0])) != 65 or len(seq) != 1 or len(str(seq[0])) != 10:
+                        viol.append(("C09:header_field_width:after-late-edit", f"header fields {seq!r} / {hid!r} are not 10 / 65 characters wide | {hd}"))
+                    if 'sequence-number-edited' == hd['late'] and str(seq[0]).strip() != '77':
+                        viol.append(("C09:header_sequence_number:after-late-edit", f"sequence number {seq!r} after it was set to 77 | {hd}"))
                 except R.FormatError as e:
                     viol.append((f"C09:unparsable:{e.code}", f"{e} | {hd}"))
             return Outcome('late-edit:' + ('refused' if raised else 'written'), viol, True, digest=str(raised))
